@@ -18,12 +18,12 @@ import (
 // C18: a demultiplexer gives each key its own ordered connection and shares the writer.
 
 type c18Case struct {
-	Family  string `json:"family"` // sequences | cancel | cancel-handoff | cancel-writer | stop | stop-handoff | rpc-c01 | rpc-c02
-	Keys    int    `json:"keys,omitempty"`
-	N       int    `json:"envelopes,omitempty"`
-	At      int    `json:"at_step,omitempty"`
-	Index   int    `json:"index,omitempty"`
-	GMP     int    `json:"gomaxprocs,omitempty"`
+	Family string `json:"family"` // sequences | cancel | cancel-handoff | cancel-writer | stop | stop-handoff | rpc-c01 | rpc-c02
+	Keys   int    `json:"keys,omitempty"`
+	N      int    `json:"envelopes,omitempty"`
+	At     int    `json:"at_step,omitempty"`
+	Index  int    `json:"index,omitempty"`
+	GMP    int    `json:"gomaxprocs,omitempty"`
 }
 
 func c18List(tier string) []c18Case {
@@ -57,12 +57,12 @@ func c18List(tier string) []c18Case {
 }
 
 type c18Conn struct {
-	key  string
-	rw   goat.RpcReadWriter
-	mu   sync.Mutex
-	got  []*wire.Rpc
-	rerr error
-	werr error
+	key                    string
+	rw                     goat.RpcReadWriter
+	mu                     sync.Mutex
+	got                    []*wire.Rpc
+	rerr                   error
+	werr                   error
 	readerDone, writerDone bool
 	okWrites               []uint64 // logical start times of the writes that succeeded
 }
